@@ -9,8 +9,9 @@ runnable (entries of different runnables are independent: `sync.Map`, one monito
   subscription time first and then every later emission, in order (`chan`, a FIFO);
 * the monitor: subscribes (`subscribe`), discards the first value and takes `lastState` from the
   cache (`monFirst`), then for every value: skip if equal to `lastState`, else `Swap` + broadcast;
-* the other writers (launch store in `startRunnable`, post-reload store, post-Stop store) read
-  `GetState()` and store it in two steps (`wRead`, `wStore`); any number may be in flight.
+* the other writers read `GetState()` and store it in two steps (`wRead`, then `wStoreB` for the launch
+  store of `startRunnable` and the post-reload store, which broadcast, or `wStore` for Shutdown's
+  post-Stop stores, which do not); any number may be in flight.
 
 `dirty` is a ghost flag: it records that a state change fell between a writer's read and its store
 (the stale-store window, finding C06-F2).  The pinned code had a second window (C06-F1: a change
@@ -35,13 +36,15 @@ structure St where
   bcasts : Nat := 0                  -- broadcasts caused by this runnable's monitor
   ctx   : Bool := false
   dirty : Bool := false
+  silent : Bool := false            -- ghost: a store without broadcast has happened (only Shutdown's post-Stop stores do that)
   deriving DecidableEq, Repr
 
 inductive Act where
   | change (v : State) | emitDup
   | subscribe | monFirst | monRecv | monExit
   | wRead | wStore (k : Nat)
-  | wStoreB (k : Nat)                -- the post-reload store: broadcasts when it changes the entry (repaired code, C06-F3)
+  | wStoreB (k : Nat)                -- the launch store and the post-reload store: followed by a broadcast (at least)
+                                     -- when they change the entry (repaired code, C06-F3 and C06-F4)
   | otherBcast                       -- another runnable's monitor broadcasts (snapshot of the whole map)
   | cancel
   deriving DecidableEq, Repr
@@ -80,7 +83,7 @@ def step (s : St) : Act → Option St
   | .wRead => some { s with pend := s.pend ++ [s.tru] }
   | .wStore k =>
     match s.pend[k]? with
-    | some v => some { s with cache := some v, pend := s.pend.eraseIdx k }
+    | some v => some { s with cache := some v, pend := s.pend.eraseIdx k, silent := true }
     | none => none
   | .wStoreB k =>
     match s.pend[k]? with
